@@ -58,9 +58,17 @@ Proof. vm_compute. reflexivity. Qed.
 
 Example sync_schedule_accepted :
   let st := run Hs cfg_sync P3 [ADeliver false 0 false; ADeliver false 1 true; AAllow 1; ADiscard 2;
-                                ARestart; ADeliver false 2 false; AAllow 3] in
-  map t_alh (s_com st) = map t_alh P3 /\ lenN (live (s_tail st)) = 0.
+                                ARestart; ADeliver false 1 false; ADeliver false 2 false; AAllow 3] in
+  map t_alh (s_com st) = map t_alh P3 /\ lenN (s_tail st) = 0.
 Proof. vm_compute. split; reflexivity. Qed.
+
+(* a discarded transaction does not come back at a reopening (since /repo 8728288 the discard cuts
+   the tx log; before, the reload loop took the discarded records back) *)
+Example discarded_stays_discarded :
+  let st := run Hs cfg_sync P3 [ADeliver false 0 false; ADeliver false 1 false; ADeliver false 2 false;
+                                ADiscard 2; ARestart] in
+  map t_alh (chain st) = [t_alh p1].
+Proof. vm_compute. reflexivity. Qed.
 
 (* ---- the schedule that used to leave a stale BlRoot in tx 1 ---- *)
 Definition stale_schedule : list action :=
